@@ -321,7 +321,7 @@ def text_cases(chk, texts):
     for t in texts:
         if not text_decidable(t):
             raise vlib.ToolError(f"generator text {t!r} lies in a band the specification does not decide")
-        pres = PRESTATES if chk.tier == "thorough" else rng.sample(PRESTATES, 2)
+        pres = rng.sample(PRESTATES, 5 if chk.tier == "thorough" else 2)
         for pre in pres:
             p = rng.choice([1, 2])
             how = rng.choice(["SetValue", "SetValue", "SetResult", "lazy"])
@@ -374,14 +374,14 @@ def number_cases(chk, count):
 
 
 def random_histories(chk, count):
-    """random histories over both positions with random arguments; a small mirror of the state (rich / lazy / other,
-    formula, present, surely not blank) keeps save+load and copy_cell inside their contracts"""
+    """random histories over both positions with random arguments.  Save+load has a contract (no rich text and no
+    lazy value under a formula): a mirror of what each cell MAY be (possible kinds among rich / lazy / other, may have
+    a formula) keeps the histories inside it whatever the open findings make of the state"""
     rng = chk.rng
     pool = FULL + UNI
     cases = []
-    gone = {"k": "o", "f": False, "here": False, "nb": False, "lt": ""}
     for _ in range(count):
-        st = {1: dict(gone), 2: dict(gone)}
+        st = {1: {"k": {"o"}, "f": False}, 2: {"k": {"o"}, "f": False}}
         steps = []
         for _ in range(rng.randint(3, 25)):
             p, q = rng.choice([1, 2]), rng.choice([1, 2])
@@ -397,61 +397,57 @@ def random_histories(chk, count):
                     continue
                 steps.append(step(a, p, via=via, t=t))
                 if a == "SetLazy":
-                    c.update(k="l", here=True, nb=False, lt=t)
+                    c["k"] = {"l"}
                 elif a == "SetResult":
-                    c.update(k="o", here=True, nb=t != "")
+                    c["k"] = {"o"}
                 else:
-                    c.update(k="o", f=False, here=True, nb=(t != "" or a == "SetString"))
+                    c.update(k={"o"}, f=False)
             elif a == "SetNumber":
                 x = rng.choice([0.0, -0.0, 1.5, 42.0, -7.0, 1e21, 0.1, 2.5e-10, 123456.789])
                 steps.append(step(a, p, via=via, x=x, as_="i32" if int_like(x) and rng.random() < 0.5 else "f64"))
-                c.update(k="o", f=False, here=True, nb=True)
+                c.update(k={"o"}, f=False)
             elif a == "SetBool":
                 steps.append(step(a, p, via=via, b=rng.random() < 0.5))
-                c.update(k="o", f=False, here=True, nb=True)
+                c.update(k={"o"}, f=False)
             elif a == "SetRich":
                 runs = [[rng.choice(["ab ", "cd", "", "12", "\u00e9", "TRUE"]), rng.random() < 0.5] for _ in range(rng.randint(1, 3))]
                 steps.append(step(a, p, via=via, runs=runs))
-                c.update(k="r", f=False, here=True, nb=True)
+                c.update(k={"r"}, f=False)
             elif a == "SetBlank":
                 steps.append(step(a, p, via=via))
-                c.update(k="o", f=False, here=True, nb=False)
+                c.update(k={"o"}, f=False)
             elif a == "SetFormula":
                 steps.append(step(a, p, via=via, t=rng.choice(FORMS + ["1/0", "A1&\"x\"", "TRUE", "1"])))
-                c.update(f=True, here=True)
+                c["f"] = True
             elif a == "RemoveFormula":
                 steps.append(step(a, p))
-                c.update(f=False, here=True)
+                c["f"] = False
             elif a == "SetError":
                 steps.append(step(a, p, via=via, t=rng.choice(ECMA_ERRORS)))
-                c.update(k="o", here=True, nb=True)
+                c["k"] = {"o"}
             elif a == "GetLazy":
                 steps.append(step(a, p, via=rng.choice(["cell", "cv"])))
-                if c["k"] == "l":
-                    c.update(k="o", f=False, nb=c["lt"] != "")
-                c["here"] = True          # (a formula under a value that is not lazy: kept by the mirror, the stricter reading)
+                if c["k"] == {"l"}:
+                    c.update(k={"o"}, f=False)           # resolved for sure: the formula is gone
+                else:
+                    c["k"] = {"o" if x == "l" else x for x in c["k"]}     # (formula: may still be there)
             elif a == "Touch":
                 steps.append(step(a, p))
-                c.update(here=True)
             elif a == "Remove":
                 steps.append(step(a, p))
-                st[p] = dict(gone)
+                st[p] = {"k": {"o"}, "f": False}
             elif a == "CopyValue":
                 steps.append(step(a, p, q))
-                st[q] = dict(st[p], here=True)
-            elif a == "CopyCell":
-                if not c["here"]:
-                    continue
+                st[q] = {"k": set(c["k"]), "f": c["f"]}
+            elif a == "CopyCell":                    # (does nothing if the source does not exist: either may be true)
                 steps.append(step(a, p, q))
-                st[q] = dict(st[p])
+                st[q] = {"k": c["k"] | st[q]["k"], "f": c["f"] or st[q]["f"]}
             elif a == "SaveLoad":
-                if any(x["here"] and x["f"] and x["k"] in "rl" for x in st.values()):
+                if any(x["f"] and x["k"] & {"r", "l"} for x in st.values()):
                     continue
                 steps.append(step(a, 0, w=rng.choice(["std", "light"])))
                 for x in st.values():
-                    if x["k"] == "l":                 # resolved by the save (or lost: X02-KF6) - blank or not, who knows
-                        x.update(k="o", nb=False)
-                    x["here"] = x["here"] and (x["nb"] or x["f"])     # present for sure only if it surely has content
+                    x["k"] = {"o" if y == "l" else y for y in x["k"]}
         if steps:
             cases.append(script(steps))
     return cases
@@ -485,7 +481,7 @@ def gen_cases(chk, env):
         for rp in tlc_behaviours("MC_CellVal_replay_d3.cfg", env, "replay generation, depth 3", workers=4, timeout=6000):
             cases.append(from_replay(rp, rng))
     n3 = len(cases)
-    nsim = 400 if quick else 6000
+    nsim = 400 if quick else 4000
     seen, lens = set(), []
     for rp in tlc_behaviours("MC_CellVal_sim.cfg", env, "TLC simulation", workers=1, simulate=f"num={nsim}",
                              extra=["-depth", "45", "-seed", str(chk.seed)]):
@@ -501,16 +497,16 @@ def gen_cases(chk, env):
         for _ in range(3 if quick else 12):
             texts.append(case_variant(rng, lit))
         texts += [lit + " ", " " + lit, lit[:-1], lit + lit[-1]]
-    nrand = 600 if quick else 12000
+    nrand = 600 if quick else 8000
     while len(texts) < len(FULL) + len(UNI) + 80 + nrand:
         t = random_number_text(rng) if rng.random() < 0.6 else mutated_number_text(rng)
         if text_decidable(t):
             texts.append(t)
     cases += text_cases(chk, texts)
     n5 = len(cases)
-    cases += number_cases(chk, 300 if quick else 6000)
+    cases += number_cases(chk, 300 if quick else 4000)
     n6 = len(cases)
-    cases += random_histories(chk, 300 if quick else 6000)
+    cases += random_histories(chk, 300 if quick else 4000)
     chk.extra["cases"] = {"one_per_open_finding": n0, "tlc_paths_depth1": n1 - n0, "tlc_paths_depth2": n2 - n1,
                           "tlc_paths_depth3": n3 - n2, "tlc_simulated_histories": len(seen),
                           "simulated_history_lengths": {"min": min(lens), "max": max(lens), "mean": round(sum(lens) / len(lens), 1)},
